@@ -104,7 +104,8 @@ def checkFix (case impl : List String) : List Fail := Id.run do
           if sum8 img ≠ 0 then fails := fails ++ [⟨"prop", "C01", "sum-nonzero", "rsdp all 36 bytes"⟩]
           if readAt img 20 4 ≠ some img.length then fails := fails ++ [⟨"prop", "C02", "length-field", "rsdp"⟩]
         | _ =>
-          if sum8 img ≠ 0 then fails := fails ++ [⟨"prop", "C01", "sum-nonzero", s!"{tname} obs#{i}: image sums to {(sum8 img).toNat}"⟩]
+          -- the SLIT's checksum under `set_distance` is also C12's ("the table checksum stays valid throughout")
+          if sum8 img ≠ 0 then fails := fails ++ [⟨"prop", if t = .slit ∧ i > 0 then "C01,C12" else "C01", "sum-nonzero", s!"{tname} obs#{i}: image sums to {(sum8 img).toNat}"⟩]
           if readAt img 4 4 ≠ some img.length then
             fails := fails ++ [⟨"prop", "C02", "length-field", s!"{tname} obs#{i}: Length {(readAt img 4 4).getD 0}, image {img.length} bytes"⟩]
         -- C03: fields that summarise a body: SLIT locality count vs matrix size; SPCR namespace string
